@@ -1376,6 +1376,8 @@ class SplineObject(object):
         new_obj /= x
         return new_obj
 
+    __truediv__ = __div__
+
     @classmethod
     def make_splines_compatible(cls, spline1, spline2):
         """Ensure that two splines are compatible.
